@@ -50,3 +50,10 @@ Theorem C03_exec_block_fail_unchanged : forall is_name cid_of tx_hash vm sig_ok 
   apply_block is_name cid_of tx_hash vm sig_ok cfg bno cb vr s txs = s.
 Proof. exact exec_block_fail_unchanged. Qed.
 Print Assumptions C03_exec_block_fail_unchanged.
+
+(** commit-only path (block delivered with a block state): a state that is not the one the header commits to
+    leaves the node state unchanged; a refused pooled transaction leaves the state unchanged *)
+Theorem C03_commit_only_fail_unchanged : forall (root_of : lstate -> N) hdr supplied s,
+  root_of supplied <> hdr -> commit_only root_of hdr supplied s = s.
+Proof. exact commit_only_fail_unchanged. Qed.
+Print Assumptions C03_commit_only_fail_unchanged.
